@@ -28,14 +28,14 @@ EXHAUSTIVE = False
 
 WEIGHTS = {'add': 10, 'add_fwd': 4, 'remove': 3, 'remove_nonchild': 2, 'replace': 2, 'replace_nonchild': 2,
            'dot_inst': 3, 'dot_val': 3, 'dot_none': 2, 'to_string': 4, 'set_attr': 3, 'set_attr_none': 1,
-           'set_value': 2}
+           'set_value': 2, 'add_nested': 2, 'remove_grandchild': 1, 'remove_elsewhere': 1}
 
 
 def value_invalid(run, op):
     """does the op carry something the oracle classes invalid (value, attribute value, non-child, non-element)?"""
     s = schema()
     k = op[0]
-    if k in ('remove_nonchild', 'replace_nonchild', 'add_junk'):
+    if k in ('remove_nonchild', 'replace_nonchild', 'add_junk', 'remove_grandchild', 'remove_elsewhere'):
         return True
     if k == 'dot_val':
         tt = s.text_type(s.element_type[op[1]]) if op[1] in s.element_type else None
